@@ -26,7 +26,7 @@ class C10(P.Property):
     pid = "C10"
     level = "exploration"
     mode = "frontend"
-    tiers = {"quick": dict(runs=6000, budget_s=60), "thorough": dict(runs=200000, budget_s=800)}
+    tiers = {"quick": dict(runs=4500, budget_s=60), "thorough": dict(runs=200000, budget_s=800)}
     technique = ("deterministic simulation: seeded raw-protocol message histories over consecutive simulated connections against a "
                  "3-state reference model, plus all histories of length <= 4 over a reduced alphabet")
     level_text = ("seeded exploration of message histories (3-14 messages: two configurations, two indexes, tokens of two keys with unique / "
@@ -44,7 +44,7 @@ class C10(P.Property):
     assumptions = ["connections are consecutive, never overlapping (overlap is C12)",
                    "tokens under the other key are valid messages and must produce an empty result"]
     probe_names = ["forced_reconnect", "reconnect_inside_cleanup", "abort_reconnect", "second_config_refused", "second_upload_refused",
-                   "search_before_ready_refused", "foreign_sid_ignored", "unknown_type", "search_other_key", "search_absent_keyword", "decoy_service", "pipelined_pair", "ack_lost_behind_refused_pipelined_request", "malformed_content_refused"]
+                   "search_before_ready_refused", "foreign_sid_ignored", "unknown_type", "search_other_key", "search_absent_keyword", "decoy_service", "pipelined_pair", "ack_lost_behind_refused_pipelined_request", "malformed_content_refused", "connection_failed_on_read_error"]
     exhaustive = False
 
     def setup(self):
@@ -101,7 +101,8 @@ class C10(P.Property):
                                      dict(lo=0.0, hi=0.0), dict(lo=0.0, hi=0.0, quantum=0.001), dict(lo=0.0005, hi=0.004, quantum=0.002)]),  # no latency / busy loop at all -- events tie and only the loop's FIFO order decides
                      skew=rng.choice([1.0, 1.0, 0.5, 2.0]), bufsize=rng.choice([8192, 8192, 16]), forced_gap=rng.choice([0, 0.5, 1.5]),
                      decoy=rng.random() < 0.5, gc_every=rng.choice([0, 0, 1, 3]),
-                     digest=rng.choice(["unique", "unique", "same", "none"]), sid_style=rng.choice(["hex", "hex", "dotted", "long"]))
+                     digest=rng.choice(["unique", "unique", "same", "none"]), sid_style=rng.choice(["hex", "hex", "dotted", "long"]),
+                     read_fault=({"step": rng.randrange(len(steps)), "skip": rng.choice([0, 0, 1, 2])} if rng.random() < 0.1 else None))
         return {"property": "C10", "seed": seed, "knobs": knobs, "steps": steps}
 
     def enumerate(self, tier):
@@ -170,18 +171,33 @@ class C10(P.Property):
         await asyncio.sleep(0.01)
         st, cfg, edb = 0, None, None
         nact = [0]
+        arm = [None]  # a read fault waiting for the next connection
         out["requests"] = 0
         out["reconnects"] = 0
 
-        async def connect(why):
+        async def connect(why, _retry=True):
             nact[0] += 1
             a = fe.RawActor(run, "a%d" % nact[0], SID)
+            nre0 = run.sim.counters.get("read_error", 0)
+            if arm[0] is not None:
+                run.seam.fail_read, arm[0] = arm[0], None
+            pending = run.seam.fail_read is not None
             try:
                 await a.open()
             except Exception as e:
                 viol.append(V("C10.init", "UNUSABLE", f"{why}: connecting failed: {e!r}"))
                 return None
             await a.wait_change(lambda: a.init is not None, 30)
+            if pending and a.init is not None:
+                # the server reads the state file once more after the init echo (when the connection gets its turn): let that
+                # happen before judging this connection
+                await a.wait_change(lambda: False, 3.5 * max(1.0, knobs.get("skew", 1.0)))
+            if (a.init is None or a.closed_seen) and _retry and run.sim.counters.get("read_error", 0) > nre0:
+                # the injected read error (EMFILE on the state file) hit this connection: it may fail; the next one must be fine
+                probes["connection_failed_on_read_error"] = 1
+                await a.close()
+                await asyncio.sleep(knobs.get("forced_gap", 0))
+                return await connect(why + " (again, after an injected read error)", _retry=False)
             if a.init is None:
                 viol.append(V("C10.init", "UNUSABLE", f"{why}: no init echo within 30 s (model state {st})"))
                 return None
@@ -215,6 +231,9 @@ class C10(P.Property):
         for si, step in enumerate(plan["steps"]):
             do = step["do"]
             run.maybe_gc(si)
+            rf = knobs.get("read_fault")
+            if rf is not None and rf["step"] == si:
+                arm[0] = ("server", "service_meta", rf.get("skip", 0))  # takes effect at the next connection that is opened
             if do == "reconnect":
                 out["reconnects"] += 1
                 if step.get("abort"):
@@ -382,6 +401,7 @@ class C10(P.Property):
                 if a is None:
                     return
         await a.close()
+        run.seam.fail_read = None  # faults stop before the final look
         await asyncio.sleep(3 * max(1.0, knobs.get("skew", 1.0)))
         out["reconnects"] += 1
         p = await connect("final probe")
@@ -399,7 +419,7 @@ class C10(P.Property):
 
     def simplifications(self, plan):
         k = plan["knobs"]
-        for key, val in (("skew", 1.0), ("bufsize", 8192), ("scheme", "CJJ14.PiBas"), ("net", dict(lo=0.01, hi=0.01)), ("forced_gap", 0), ("decoy", False), ("gc_every", 0), ("digest", "unique"), ("sid_style", "hex")):
+        for key, val in (("skew", 1.0), ("bufsize", 8192), ("scheme", "CJJ14.PiBas"), ("net", dict(lo=0.01, hi=0.01)), ("forced_gap", 0), ("decoy", False), ("gc_every", 0), ("digest", "unique"), ("sid_style", "hex"), ("read_fault", None)):
             if k.get(key) != val:
                 yield dict(plan, knobs=dict(k, **{key: val}))
         steps = plan["steps"]
